@@ -484,24 +484,88 @@ impl<'a> syn::visit::Visit<'a> for LetCollector<'a> {
     }
 }
 
+struct IdentCollector {
+    ids: std::collections::BTreeSet<String>,
+}
+impl<'a> syn::visit::Visit<'a> for IdentCollector {
+    fn visit_ident(&mut self, i: &'a proc_macro2::Ident) {
+        self.ids.insert(i.to_string());
+    }
+}
+fn idents_of(e: &Expr) -> std::collections::BTreeSet<String> {
+    let mut c = IdentCollector { ids: Default::default() };
+    syn::visit::Visit::visit_expr(&mut c, e);
+    c.ids
+}
+
 fn site_gates(src: &Path) -> String {
     use syn::visit::Visit;
     let file = read_file(src, "searcher.rs");
     let f = find_impl_fn(&file.items, "Searcher", "visit_dir").expect("Searcher::visit_dir");
     let mut o = String::from(HDR_N);
     o.push_str("Open Scope N_scope.\n(* from src/searcher.rs, fn visit_dir *)\n");
+    // The names the translation talks about are found by the role each binding plays, not by its spelling, so that a renamed
+    // parameter or local does not break the extraction: the three u32 parameters (minimum, maximum, root depth, in that
+    // order), the local computed by calc_depth, the local that is a `match` on the root-depth parameter, and the local
+    // computed from the latter two with saturating_sub.
+    let mut u32_params = vec![];
+    for a in &f.sig.inputs {
+        if let FnArg::Typed(pt) = a {
+            if qs(&pt.ty).replace(' ', "") == "u32" {
+                u32_params.push(pat_path_last(&pt.pat).expect("visit_dir: parameter pattern"));
+            }
+        }
+    }
+    if u32_params.len() != 3 {
+        panic!("visit_dir: expected three u32 parameters (min, max, root depth), found {:?}", u32_params);
+    }
+    let (p_min, p_max, p_root) = (u32_params[0].clone(), u32_params[1].clone(), u32_params[2].clone());
+    let mut lc = LetCollector { lets: vec![] };
+    lc.visit_block(&f.block);
+    let mut n_canon = None;
+    let mut n_base = None;
+    for (p, e) in &lc.lets {
+        let name = pat_path_last(p).unwrap_or_default();
+        if contains_text(*e, "calc_depth(") && n_canon.is_none() {
+            n_canon = Some(name.clone());
+        }
+        if let Expr::Match(m) = e {
+            if let Expr::Path(sp) = &*m.expr {
+                if last_seg(&sp.path) == p_root {
+                    if n_base.is_some() { panic!("two locals are a match on {}", p_root); }
+                    n_base = Some(name.clone());
+                }
+            }
+        }
+    }
+    let n_canon = n_canon.expect("visit_dir: the local computed by calc_depth");
+    let n_base = n_base.expect("visit_dir: the local that is a match on the root depth");
+    let mut n_depth = None;
+    for (p, e) in &lc.lets {
+        let name = pat_path_last(p).unwrap_or_default();
+        let ids = idents_of(*e);
+        if name != n_base && ids.contains("saturating_sub") && ids.contains(&n_base) && ids.contains(&n_canon) {
+            if n_depth.is_some() { panic!("two locals are computed from {} and {}", n_canon, n_base); }
+            n_depth = Some(name.clone());
+        }
+    }
+    let n_depth = n_depth.expect("visit_dir: the local computed from the canonical and the base depth");
     let env = Env::new("N")
         .with("self.is_buffered()", "is_buffered")
         .with("self.query.limit", "limit")
-        .with("self.found", "found");
+        .with("self.found", "found")
+        .with(&p_min, "min_depth")
+        .with(&p_max, "max_depth")
+        .with(&p_root, "root_depth")
+        .with(&n_canon, "canonical_depth")
+        .with(&n_base, "base_depth")
+        .with(&n_depth, "depth");
     // the two depth bindings
-    let mut lc = LetCollector { lets: vec![] };
-    lc.visit_block(&f.block);
     let mut base = None;
     let mut depth = None;
     for (p, e) in &lc.lets {
         let name = pat_path_last(p).unwrap_or_default();
-        if name == "base_depth" {
+        if name == n_base {
             // match root_depth { 0 => canonical_depth, _ => root_depth }
             if let Expr::Match(m) = e {
                 let scr = ex(&m.expr, &env);
@@ -519,7 +583,7 @@ fn site_gates(src: &Path) -> String {
                 panic!("base_depth is not a match: {}", qs(*e));
             }
         }
-        if name == "depth" {
+        if name == n_depth {
             depth = Some(ex(e, &env));
         }
     }
@@ -532,14 +596,13 @@ fn site_gates(src: &Path) -> String {
     let mut report = None;
     let mut descend = None;
     for i in &ic.ifs {
-        let cond = qs(&i.cond).replace(' ', "");
         if is_break_block(&i.then_branch) {
             breaks.push(ex(&i.cond, &env));
-        } else if cond.contains("min_depth") {
+        } else if idents_of(&*i.cond).contains(&p_min) {
             if report.is_some() { panic!("two conditions mention min_depth"); }
             if !contains_text(&i.then_branch, "check_file") { panic!("min_depth gate does not guard check_file"); }
             report = Some(ex(&i.cond, &env));
-        } else if cond.contains("max_depth") {
+        } else if idents_of(&*i.cond).contains(&p_max) {
             if descend.is_some() { panic!("two conditions mention max_depth"); }
             if !contains_text(&i.then_branch, "visit_dir") && !contains_text(&i.then_branch, "dir_queue") { panic!("max_depth gate does not guard the descent"); }
             descend = Some(ex(&i.cond, &env));
